@@ -202,3 +202,16 @@ impl SwarmDriver {
         }
     }
 }
+
+#[cfg(feature = "verif-hooks")]
+impl SwarmDriver {
+    /// Verification hook: what the `Cmd::Replicate` request arm does with a received key list
+    /// (a libp2p `ResponseChannel` cannot be fabricated, so the event itself cannot be injected).
+    pub fn verif_on_replicate(
+        &mut self,
+        holder: NetworkAddress,
+        keys: Vec<(NetworkAddress, RecordType)>,
+    ) {
+        self.add_keys_to_replication_fetcher(holder, keys)
+    }
+}
